@@ -480,6 +480,7 @@ type funcCtx struct {
 	siteOrd map[string][]token.Pos
 	params  []string
 	results []string
+	declOrd map[*ssa.Alloc]int
 	maxPath int
 	covered map[*ssa.BasicBlock]bool
 	ipdom   map[*ssa.BasicBlock]*ssa.BasicBlock
